@@ -200,7 +200,7 @@ def _is_err(v):
 
 
 class Evaluator:
-    def __init__(self, prog, inline_prefixes=("svgdx::",), max_depth=4, opaque=(), presets=None, type_alias=None, watch=(), name_case=None, transparent=(), iflet=None, absent=(), present=None, script=None, numbered=(), unroll=0, keep_early_none=False):
+    def __init__(self, prog, inline_prefixes=("svgdx::", "<svgdx::"), max_depth=4, opaque=(), presets=None, type_alias=None, watch=(), name_case=None, transparent=(), iflet=None, absent=(), present=None, script=None, numbered=(), unroll=0, keep_early_none=False):
         self.prog = prog
         self.keep_early_none = keep_early_none  # an undecided early `return None` is an alternative result, not a guard
         self.script = script or {}  # method -> {"tick": method, "values": [...]}: the value returned depends on how often `tick` was called
@@ -480,6 +480,8 @@ class Evaluator:
             return None
         if k == "Array":
             return ("tup", [self.eval(x, env, st) for x in n.get("items", n.get("elems", []))])
+        if k == "Closure" and isinstance(n.get("body"), dict):
+            return ("closure", n, dict(env))
         if k == "Struct":
             out = {}
             base = self.eval(n["base"], env, st) if isinstance(n.get("base"), dict) else None
@@ -958,6 +960,24 @@ class Evaluator:
             return args[0]
         if name in ("unwrap_or", "unwrap_or_else", "unwrap", "expect", "unwrap_or_default") and recv is not None and rty.startswith("std::result::Result") and not (not is_form(recv) and recv[0] in ("err", "none", "some")):
             return recv  # a Result is represented by its Ok payload
+        if name in ("find_map", "find") and recv is not None and not is_form(recv) and recv[0] == "tup" and len(n["args"]) == 1:
+            # over a list whose items are known: the first item for which the closure yields Some / true
+            cl = args[0] if isinstance(args[0], tuple) and args[0] and args[0][0] == "closure" else n["args"][0]
+            for item in recv[1]:
+                r = self._apply(cl, [item], env, st)
+                if r is None or is_form(r):
+                    return None
+                if name == "find_map":
+                    if r[0] == "some":
+                        return r
+                    if r[0] != "none":
+                        return None
+                else:
+                    if r[0] != "bool":
+                        return None
+                    if r[1]:
+                        return ("some", item)
+            return ("none",)
         if name in ("map", "and_then") and recv is not None and not is_form(recv) and recv[0] in ("some", "none") and len(n["args"]) == 1:
             if recv[0] == "none":
                 return ("none",)
@@ -1014,12 +1034,30 @@ class Evaluator:
             return atom(name, [recv] + args)
         return None
 
+    def _apply(self, clos, args, env, st):
+        """apply a closure - a Closure node, or a ("closure", node, captured env) value - to evaluated arguments"""
+        node, cenv = (clos[1], clos[2]) if isinstance(clos, tuple) and clos and clos[0] == "closure" else (clos, env)
+        if not isinstance(node, dict) or node.get("k") != "Closure" or not isinstance(node.get("body"), dict):
+            return None
+        e2 = dict(env)
+        e2.update(cenv)
+        for p_, a in zip(node.get("params", []), args):
+            self._bind(p_, a, e2)
+        try:
+            return self.eval(node["body"], e2, st)
+        except _Return as r:
+            return r.value
+
     def _call(self, n, env, st):
         f = n["f"]
         res = f.get("res") or {}
         path = res.get("path", "")
         last = path.split("::")[-1]
         args = [self.eval(a, env, st) for a in n["args"]]
+        if f.get("k") == "Path" and res.get("local") is not None:
+            cv = env.get(res["local"])
+            if isinstance(cv, tuple) and cv and cv[0] == "closure":
+                return self._apply(cv, args, env, st)
         if last in self.watch:
             self.calls.append(dict(name=last, recv=None, args=args, line=n.get("line"), cond=getattr(self, "cond_depth", 0) > 0))
         if last in self.numbered:
